@@ -44,7 +44,7 @@ def run(chk):
     for s, res in enumerate(vf.run_parallel(jobs)):
         if not chk.ingest(res, "c18 shard %d" % s):
             chk.sanitizer["reports"] += 0 if res.rc == 0 else 1
-    chk.extra["exhaustive"] = {
+    chk.extra["exhaustive_subspaces"] = {
         "wildcmp_pattern_maxlen": plen, "wildcmp_string_maxlen": slen,
         "range_window": "[-6,6]^3"}
     chk.assumptions = [
